@@ -19,7 +19,7 @@ os.makedirs("/tmp/seedcheck", exist_ok=True)
 r = sh("git -C /repo worktree add -q --detach %s HEAD" % wt); assert r.returncode == 0, r.stderr
 log = {}
 def rundemo():
-    cmd = ("python3 " if demo.endswith(".py") else "sh ") + demo + " " + bd + "/bin"
+    cmd = ("python3 " if demo.endswith(".py") else "bash ") + demo + " " + bd + "/bin"
     r = sh(cmd, cwd=wt, timeout=900)
     return r.returncode, (r.stdout + r.stderr)[-1500:]
 try:
